@@ -4,6 +4,7 @@ import (
 	"bytes"
 	"encoding/json"
 	"fmt"
+	"math/rand"
 	"reflect"
 	"strconv"
 	"strings"
@@ -25,7 +26,7 @@ func init() { core.Register(c12{}) }
 
 func (c12) ID() string { return "C12" }
 
-func (c12) Batches(tier string, seed int64) int { return newSeqPlan(tier, 24, 500).total() + 2 }
+func (c12) Batches(tier string, seed int64) int { return newSeqPlan(tier, 24, 500).total() + 9 }
 
 var c12Driver = driver.NewPostgresDriver()
 
@@ -33,11 +34,11 @@ func (c12) RunBatch(ctx *core.Ctx, batch int) {
 	mon.Install()
 	defer monFlush(ctx)
 	plan := newSeqPlan(ctx.Tier, 24, 500)
-	switch batch - plan.total() {
-	case 0:
-		// hostile values in every leaf position
-		for _, h := range gen.ValueDict(ctx.Rand("values"), 300) {
-			if !utf8.ValidString(h) || strings.Contains(h, `"`) {
+	switch k := batch - plan.total(); k {
+	case 0, 1, 2, 3, 4, 5, 6, 7:
+		// hostile values in every leaf position (the dictionary is dealt out over eight batches)
+		for hi, h := range gen.ValueDict(rand.New(rand.NewSource(ctx.Seed*31+7)), 300) {
+			if hi%8 != k || !utf8.ValidString(h) || strings.Contains(h, `"`) {
 				continue
 			}
 			q := qt.Phrase(h).Text
@@ -53,7 +54,7 @@ func (c12) RunBatch(ctx *core.Ctx, batch int) {
 			}
 		}
 		return
-	case 1:
+	case 8:
 		// powers, distances, numbers
 		for _, in := range []string{"a~1", "a~0", "a~-2", "a~7", "a^1", "a^1.0", "a^0.5", "a^2", "a^1e3", "a^1e-3", "a^3.25", "(a:b)^2~3", "a:5.0", "a:1e5", "a:1e30", "a:-0.0", "a:0.1", "a:[1.0 TO 2.5]", "a:[1e30 TO *]",
 			"a:[5.0 TO 6.0]", "a:(1 OR 2.0 OR 3.5)", "a:(1.0 OR x)", `a:""`, `""`, `a:["" TO ""]`, `a:("" OR "")`, "a:9223372036854775807", "a:9223372036854775808", "a:-9223372036854775808", "a:1e-320", "5:6", "1.5:x", "a:007", "a:0x1p4",
